@@ -1,13 +1,61 @@
 import Rooc.Wire
 import Rooc.Oracle
+import Rooc.WireTab
+import Rooc.TabOracle
+import Rooc.Drv.C13
+import Rooc.Gen.Simplex
 namespace Rooc.Drv.C14
 open Rooc Sexp
 
+def CanonErr.enc : CanonErr → Sexp
+  | .infeasible => app "err" [.atom "Infesible"]
+  | .invalidBasis => app "err" [.atom "InvalidBasis"]
+  | .simplexError e => app "err" [.atom "SimplexError", .atom e.name]
+
+variable {α : Type} [Arith α] [Wire α]
+
+def encAction : StepAction α → Sexp
+  | .finished => .atom "finished"
+  | .pivot h t r => app "pivot" [encNat h, encNat t, encNum r]
+
 /-- model requests for C14 (run at `Float` for the exact diff, at `Ext Rat` as oracle). -/
 def handle (α : Type) [Arith α] [Wire α] : List Sexp → Sexp
+  | [.atom "tableau", tol, sm] =>
+    if !(C13.tolOk tol) then app "err" [.atom "tolerance-mismatch"] else
+    match (decNumS tol : Option α), (StdModel.dec sm : Option (StdModel α)) with
+    | some tol, some sm =>
+      match Tableau.intoTableau tol Gen.stallLimitExtra Gen.phase1IterationLimit sm with
+      | .ok T => app "ok" [T.enc]
+      | .error e => CanonErr.enc e
+    | _, _ => app "err" [.atom "decode"]
+  | [.atom "step", tol, prefer, T] =>
+    if !(C13.tolOk tol) then app "err" [.atom "tolerance-mismatch"] else
+    match (decNumS tol : Option α), decNats prefer, (Tab.dec T : Option (Tab α)) with
+    | some tol, some prefer, some T =>
+      match Tableau.step tol T prefer with
+      | .ok (.finished, _) => app "ok" [.atom "finished"]
+      | .ok (act, T') => app "ok" [encAction act, T'.enc]
+      | .error e => app "err" [.atom e.name]
+    | _, _, _ => app "err" [.atom "decode"]
+  | [.atom "solve", tol, limit, T] =>
+    if !(C13.tolOk tol) then app "err" [.atom "tolerance-mismatch"] else
+    match (decNumS tol : Option α), decNat limit, (Tab.dec T : Option (Tab α)) with
+    | some tol, some limit, some T =>
+      let out := Tableau.solve tol Gen.stallLimitExtra limit [] T
+      match out.result with
+      | .error e => app "solved" [.atom e.name, out.final.enc]      -- the steps are lost with the error
+      | .ok () =>
+        app "solved" [.atom "ok", encNat out.steps.length, out.final.enc,
+          app "values" ((Tableau.variablesValues out.final).map encNum), encNum (Tableau.optimalValue out.final),
+          app "trace" (out.steps.map fun (P, _, _, _) => .list [.list (P.c.map encNum), encNum P.value])]
+    | _, _, _ => app "err" [.atom "decode"]
   | _ => app "err" [.atom "bad-request"]
 
-/-- exact oracle: the PROPERTY evaluated on the implementation's own answer. -/
+/-- exact oracle: the PROPERTY evaluated on the implementation's own trace. -/
 def oracle : List Sexp → Sexp
+  | [.atom "check-trace", tol, sm, start, .list (.atom "steps" :: steps), final] =>
+    match (decNumS tol : Option (Ext Rat)), (StdModel.dec sm : Option (StdModel (Ext Rat))) with
+    | some (.fin tol), some sm => TabOracle.check tol sm start steps final
+    | _, _ => app "err" [.atom "decode"]
   | _ => app "err" [.atom "bad-request"]
 end Rooc.Drv.C14
